@@ -126,6 +126,9 @@ class FactoredInference:
         L = self._lipschitz(measurements) if lipschitz is None else lipschitz
         if self.log:
             print('Lipchitz constant:', L)
+        if _vt.ON and _vt.sink is not None and L == 0:
+            _vt.emit('est.return', solver='IG', path='lip_zero', model_id=id(model),
+                     pot_id=id(model.potentials), marg_id=None)
         if L == 0: return
     
         theta = model.potentials
